@@ -508,7 +508,7 @@ fn c06_rtu_recv_fixed_split1() {
 }
 
 //@ props: ZZ
-//@ desc: UNREGISTERED - not yet observed on the clean tree in this session
+//@ desc: UNREGISTERED - died at a 16 GB cap after 260 s (symex 153 s, 3.5x the 1+7 split) next to two other runs; not re-run alone
 //@ peer: yes
 //@ tier: thorough
 //@ timeout: 1800
@@ -558,7 +558,7 @@ fn c06_rtu_recv_exception_reply() {
 }
 
 //@ props: ZZ
-//@ desc: UNREGISTERED - not yet observed on the clean tree in this session
+//@ desc: UNREGISTERED - died at a 16 GB cap after 233 s (symex 122 s) next to two other runs; not re-run alone
 //@ peer: yes
 //@ tier: thorough
 //@ timeout: 1800
@@ -582,4 +582,16 @@ fn c06_rtu_recv_refused() {
     rtu_refused::<2>(true, 7, None, true);
     rtu_refused::<2>(true, 0x83, None, true);
     rtu_refused::<7>(true, 16, Some((6, 250)), false);
+}
+
+//@ props: C06 C07
+//@ peer: yes
+//@ tier: thorough
+//@ timeout: 1800
+//@ fns: serial::frame::RtuParser::parse (response direction: byte count at offset 1, Start -> ReadToOffsetForLength -> ReadFullBody in one call), RtuParser::length_mode, crc::Digest
+//@ bounds: response direction, function code 3 with byte count 2 (7-byte reply) delivered whole; symbolic address, data, CRC, residue, decode level; unwind 12
+#[kani::proof]
+#[kani::unwind(12)]
+fn c06_rtu_recv_read_reply_whole() {
+    rtu_delivery::<7>(false, 3, Some((2, 2)), 7);
 }
